@@ -7,6 +7,8 @@ import (
 	"io"
 	"os"
 
+	"github.com/xtaci/smux"
+
 	"github.com/bokysan/socketace/v2/internal/vp"
 )
 
@@ -15,7 +17,14 @@ import (
 // must stop instead of servicing the dead session in a busy loop. (c) when a logical connection has finished - the
 // client's stream ends, or the target closes first - the target connection opened for it and the stream are closed.
 
-var vp14DeadErrors = []error{io.ErrClosedPipe, io.EOF, os.ErrClosed, errors.New("read tcp: connection reset by peer")}
+type vp14Timeout struct{}
+
+func (vp14Timeout) Error() string   { return "read tcp: i/o timeout" }
+func (vp14Timeout) Timeout() bool   { return true }
+func (vp14Timeout) Temporary() bool { return true }
+
+// what smux reports for a dead session: closed pipe (keep-alive / Close), EOF, a reset, a timed-out carrier read
+var vp14DeadErrors = []error{io.ErrClosedPipe, io.EOF, os.ErrClosed, errors.New("read tcp: connection reset by peer"), vp14Timeout{}, smux.ErrTimeout}
 
 func VP_C14_DeadSession() {
 	vpS = &vpSrvEnv{}
